@@ -50,13 +50,16 @@ theorem gen_table_nonempty : infixOps.length ≥ 19 ∧ prefixOps.length ≥ 3 :
     helpers). If it could not, the rule is "not established": the check says so in its evidence and runs
     the exhaustive depth-2/3 operator nestings through the real printer instead. -/
 theorem abstract_rule_is_generated_rule : shapeOk = true →
-    (allHeads.all fun p => allHeads.all fun c => [0, 1, 2].all fun i =>
-      nb realPowers realExc p c i == needsBrackets (bnOf p) (bnOf c) i) = true := by decide
+    (allHeads.all fun p => allHeads.all fun c => [0, 1, 2].all fun i => [true, false].all fun pure =>
+      nb realPowers realExc p c i pure == needsBrackets (bnOf p) (bnOf c pure) i) = true := by decide
 
-/-- … and so is the rule of the full printer model (Printer.lean). -/
+/-- … and so is the rule of the full printer model (Printer.lean); for `pure = false` the child node carries
+    a left operand `%` of its own binding, so that the model's own `isProductChain` answers false where the
+    chain test is reached. -/
 theorem model_rule_is_generated_rule : shapeOk = true →
-    (allHeads.all fun p => allHeads.all fun c => [0, 1, 2].all fun i =>
-      Ecal.Print.needsBrackets (nodeOf p) (nodeOf c) i == needsBrackets (bnOf p) (bnOf c) i) = true := by decide
+    (allHeads.all fun p => allHeads.all fun c => [0, 1, 2].all fun i => [true, false].all fun pure =>
+      Ecal.Print.needsBrackets (nodeOf p) (nodeOf c pure) i ==
+        needsBrackets (bnOf p) (bnOf c (Ecal.Print.isProductChain (nodeOf c pure) (nodeOf p).binding)) i) = true := by decide
 
 /-- **Bracket rule of `return <value>`** (fixes/C08-return-operand-brackets): under every operator head of
     the real table — infix, prefix, `let`, `not`, sink attribute, either side — a return with a value is
@@ -65,8 +68,8 @@ theorem model_rule_is_generated_rule : shapeOk = true →
     everything that follows). -/
 theorem return_operand_bracketed : realPowers.stmt iReturn = true ∧
     (allHeads.all fun p => [0, 1].all fun i =>
-      (p == Head.atom || p == Head.pre iReturn || nb realPowers realExc p (.pre iReturn) i) &&
-      !(nb realPowers realExc (.pre iReturn) p i) &&
+      (p == Head.atom || p == Head.pre iReturn || nb realPowers realExc p (.pre iReturn) i true) &&
+      !(nb realPowers realExc (.pre iReturn) p i true) &&
       (!shapeOk || p == Head.atom || p == Head.pre iReturn || needsBrackets (bnOf p) (bnOf (.pre iReturn)) i)) = true := by
   decide
 
@@ -104,17 +107,17 @@ theorem real_exc_tight : ∀ K k, realExc K k = true → realPowers.bp K ≤ rea
     `ppNeedsBrackets` are admissible (`Ok`): every unparenthesised operator binds tighter than the right
     binding in force, and no prefix operator is followed by an operator it would capture — i.e. the
     printer parenthesises wherever the minimal unparser must. -/
-theorem printer_brackets_suffice (e : Expr) (h : hasExc realExc e = false) :
+theorem printer_brackets_suffice (e : Expr) (h : hasExc realPowers realExc e = false) :
     Ok realPowers (annot realPowers realExc e) 0 0 :=
   annot_ok realPowers realExc real_bp_pos real_exc_tight e 0 0 h (adm_zero realPowers real_bp_pos e)
 
-example : hasExc realExc (Expr.bin 1 (Expr.atom 0) (Expr.bin 1 (Expr.atom 1) (Expr.pre 2 (Expr.atom 2)))) = false := by decide
+example : hasExc realPowers realExc (Expr.bin 1 (Expr.atom 0) (Expr.bin 1 (Expr.atom 1) (Expr.pre 2 (Expr.atom 2)))) = false := by decide
 
 /-- The same for any table: positive infix bindings, prefix operand parsed at `pb k + off`, and an
     exception that only concerns children binding at least as tightly. -/
 theorem printer_brackets_suffice_any_table (P : Powers) (exc : Nat → Nat → Bool)
     (hpos : ∀ k, 0 < P.bp k) (hexc : ∀ K k, exc K k = true → P.bp K ≤ P.bp k)
-    (e : Expr) (h : hasExc exc e = false) : Ok P (annot P exc e) 0 0 :=
+    (e : Expr) (h : hasExc P exc e = false) : Ok P (annot P exc e) 0 0 :=
   annot_ok P exc hpos hexc e 0 0 h (adm_zero P hpos e)
 
 /-- Admissible parentheses are read back: the Pratt parser (relation) returns the tree. -/
@@ -126,7 +129,7 @@ theorem admissible_parses (P : Powers) (p : PExpr) (h : Ok P p 0 0) : Run P 0 p.
     class `mul-right-brackets`: the executable, fuel-indexed Pratt parser reads the printed tokens back
     to exactly `e` and consumes all of them.
     (`_partial`: the full statement has no hypothesis `h`; it is false, see `mul_right_brackets_witness`.) -/
-theorem print_parse_expr_partial (e : Expr) (h : hasExc realExc e = false) :
+theorem print_parse_expr_partial (e : Expr) (h : hasExc realPowers realExc e = false) :
     ∃ fuel, run realPowers fuel 0 (printToks realPowers realExc e) = some (e, []) := by
   have hr := admissible_parses realPowers _ (printer_brackets_suffice e h)
   rw [strip_annot] at hr
@@ -138,7 +141,7 @@ example : run realPowers 20 0 (printToks realPowers realExc
 
 /-- **Idempotence on operator trees**: printing what the parser reads from the printed text gives the
     same text (comment-free, blank-line-free expressions; outside `mul-right-brackets`). -/
-theorem print_idempotent_expr_partial (e : Expr) (h : hasExc realExc e = false) :
+theorem print_idempotent_expr_partial (e : Expr) (h : hasExc realPowers realExc e = false) :
     ∃ fuel e', run realPowers fuel 0 (printToks realPowers realExc e) = some (e', []) ∧
       printToks realPowers realExc e' = printToks realPowers realExc e := by
   obtain ⟨fuel, hf⟩ := print_parse_expr_partial e h
@@ -153,14 +156,14 @@ theorem minimal_unparser_parses (P : Powers) (hpos : ∀ k, 0 < P.bp k) (e : Exp
 /-- **Negative witness, known finding `mul-right-brackets`**: `a * (b * c)` is printed as `a * b * c`,
     which the parser reads as `(a * b) * c` — a different tree. -/
 theorem mul_right_brackets_witness :
-    ∃ e e', hasExc realExc e = true ∧
+    ∃ e e', hasExc realPowers realExc e = true ∧
       run realPowers 10 0 (printToks realPowers realExc e) = some (e', []) ∧ e' ≠ e :=
   ⟨Expr.bin iTimes (Expr.atom 0) (Expr.bin iTimes (Expr.atom 1) (Expr.atom 2)),
    Expr.bin iTimes (Expr.bin iTimes (Expr.atom 0) (Expr.atom 1)) (Expr.atom 2), by decide, by decide, by decide⟩
 
 /-- … and with a quotient: `a * (b / c)` comes back as `(a * b) / c`. -/
 theorem mul_right_brackets_witness_div :
-    ∃ e e', hasExc realExc e = true ∧
+    ∃ e e', hasExc realPowers realExc e = true ∧
       run realPowers 10 0 (printToks realPowers realExc e) = some (e', []) ∧ e' ≠ e :=
   ⟨Expr.bin iTimes (Expr.atom 0) (Expr.bin iDiv (Expr.atom 1) (Expr.atom 2)),
    Expr.bin iDiv (Expr.bin iTimes (Expr.atom 0) (Expr.atom 1)) (Expr.atom 2), by decide, by decide, by decide⟩
